@@ -88,7 +88,7 @@ theorem containsClock_iff (iv : TimeInterval) (k : Clock)
     (h1 : 1 ≤ k.day) (hd : k.day ≤ daysInMonth k.year k.month) :
     containsClock iv k = true ↔
       Spec iv ⟨k.year, k.month, k.day⟩ k.weekday (k.hour * 60 + k.minute) := by
-  unfold containsClock
+  unfold containsClock containsClockWith
   simp only [Bool.and_eq_true]
   rw [inField_iff _ _ _ (timeMatch_iff _), inField_iff _ _ _ (incMatch_iff k.month),
     inField_iff _ _ _ (incMatch_iff k.weekday), inField_iff _ _ _ (incMatch_iff k.year),
@@ -167,12 +167,44 @@ theorem empty_field_rejects (iv : TimeInterval) (k : Clock)
     (h : iv.times = some [] ∨ iv.daysOfMonth = some [] ∨ iv.months = some [] ∨
          iv.weekdays = some [] ∨ iv.years = some []) :
     containsClock iv k = false := by
-  unfold containsClock
+  unfold containsClock containsClockWith
   rcases h with h | h | h | h | h <;> simp [h, inField]
 
 theorem absent_fields_accept (k : Clock) (loc : Option String) :
     containsClock { location := loc } k = true := by
-  simp [containsClock, inField]
+  simp [containsClock, containsClockWith, inField]
+
+/-! ### the pinned `daysInMonth` (finding F9)
+
+The pinned code obtains the month length from Go's date normalisation *in the
+interval's location*: `time.Date(y, m+1, 0, 12, 0, 0, 0, t.Location()).Day()`.
+Whatever it returns is `dim` below.  C15 holds for that code exactly as far as
+`dim` is the calendar's month length; where a location's local calendar has no
+last day of the month (Pacific/Kiritimati and Pacific/Kanton, 1994-12-31) the
+normalised date is 1995-01-01 and `dim = 1`. -/
+
+/-- `contains_iff_spec` for the code as pinned, under the hypothesis that its
+    month length is right. -/
+theorem containsClock_iff_partial (dim : Int) (iv : TimeInterval) (k : Clock)
+    (hdim : dim = daysInMonth k.year k.month)
+    (h1 : 1 ≤ k.day) (hd : k.day ≤ daysInMonth k.year k.month) :
+    containsClockWith dim iv k = true ↔
+      Spec iv ⟨k.year, k.month, k.day⟩ k.weekday (k.hour * 60 + k.minute) := by
+  subst hdim; exact containsClock_iff iv k h1 hd
+
+/-- Without that hypothesis the statement is false: 1994-12-15 10:00 in
+    Pacific/Kiritimati (a Thursday) with the month length 1 the pinned code
+    computes there — `days_of_month: ['15']` rejects the 15th, `['-17']` too,
+    and `['1:31']` is cut down to the 1st. -/
+theorem pinned_month_length_counterexample :
+    let k : Clock := ⟨1994, 12, 15, 4, 10, 0⟩
+    containsClockWith 1 { daysOfMonth := some [⟨15, 15⟩] } k = false ∧
+    specB { daysOfMonth := some [⟨15, 15⟩] } ⟨1994, 12, 15⟩ 4 600 = true ∧
+    containsClockWith 1 { daysOfMonth := some [⟨-17, -17⟩] } k = false ∧
+    specB { daysOfMonth := some [⟨-17, -17⟩] } ⟨1994, 12, 15⟩ 4 600 = true ∧
+    containsClockWith 1 { daysOfMonth := some [⟨1, 31⟩] } k = false ∧
+    containsClock { daysOfMonth := some [⟨15, 15⟩] } k = true := by
+  decide
 
 /-! ### `Intervener.Mutes` -/
 
